@@ -34,6 +34,8 @@ def Inv (a : Actor) (s : St) : Prop :=
 @[simp] theorem next_fxReply (s : St) (k v : Nat) (b : Bool) : next s (.fxReply k v b) = .ok s := rfl
 @[simp] theorem next_fxForget (s : St) (k : Nat) (b : Bool) : next s (.fxForget k b) = .ok s := rfl
 @[simp] theorem next_callRet (s : St) (k : Nat) (r : CallRes) : next s (.callRet k r) = .ok s := rfl
+@[simp] theorem next_callSent (s : St) (k : Nat) (b : Bool) : next s (.callSent k b) = .ok s := rfl
+@[simp] theorem next_polled (s : St) : next s .polled = .ok s := rfl
 @[simp] theorem next_waitRet (s : St) (w : Nat) (b : Bool) : next s (.waitRet w b) = .ok s := rfl
 @[simp] theorem next_snap (s : St) (sn : Snap) : next s (.snap sn) = .ok s := rfl
 @[simp] theorem next_isLocal (s : St) : next s .isLocal = .ok s := rfl
@@ -530,7 +532,7 @@ theorem stepCore_sim (a : Actor) (s : St) (op : AOp) (h : Inv a s) : Sim next In
   | spawn sup name nameFree isLocal supOk => exact opSpawn_sim a s sup name nameFree isLocal supOk h
   | pollSpawn supOk => exact opPollSpawn_sim a s supOk h
   | dropSpawn => exact opDropSpawn_sim a s h
-  | poll => exact opPoll_sim a s h
+  | poll => exact Sim.pollMark next next_polled (opPoll_sim a s h)
   | abort => exact opAbort_sim a s h
   | resume sg => exact opResume_sim a s sg h
   | _ =>
